@@ -224,7 +224,7 @@ class RFile:
 
     def close(self):
         if not self._f.closed:
-            SIM.event("close", self._p, yield_=False)
+            SIM.event("close", self._p)
         return self._f.close()
 
     def __enter__(self):
